@@ -31,6 +31,9 @@ def cases(tier, seed):
         if i % 5 == 1:      # fine boxes that hold only zeros over coarse data that is not zero
             c["zero_fine"] = True
             c["gen"]["nlevels"] = max(2, c["gen"]["nlevels"])
+        if i % 5 == 2 and "names" not in c["gen"]:      # field names that differ only in letter case / contain one another
+            c["gen"]["nfields"] = 4
+            c["gen"]["names"] = gen.confusable_names(random.Random(seed * 71 + i), 4)
         if i % 5 == 3:      # a header written with six significant digits: cell sizes whose ratios are not exactly 2
             c["gen"]["aniso"] = [1.0 / 6, 1.0 / 3, 1.0 / 12]
             c["gen"]["nlevels"] = 3 if c["gen"]["bf"] <= 2 else max(2, c["gen"]["nlevels"])
@@ -102,7 +105,10 @@ def run_case(case, work, rec):
     light = case.get("light", False)       # the scale case: one field, the two completion orders that matter
     if light:
         rec.count("scale_cases")
-    for field in rng.sample(m.names, 1 if light else min(2, m.nfields)):
+    # look-alike names (letter case, one name part of another): every field is asked for, or the one a careless
+    # lookup confuses may not be among the two drawn
+    nsel = 1 if light else (min(5, m.nfields) if case.get("gen", {}).get("names") else min(2, m.nfields))
+    for field in rng.sample(m.names, nsel):
         fidx = m.names.index(field)
         for dtype in (("float64",) if light else ("float64", "float32")):
             for limit in [None] + list(range(finest)):
